@@ -94,6 +94,10 @@ def expressions():
 
 
 EXPRS = expressions()
+# terms with backslash-escaped characters (the escape is consumed, the character is part of the term): checked at
+# get_search_term only, the sweeps keep the plain term alphabet
+ESCAPED_EXPRS = [("=a\\ b", "=", False, "a b"), ("!=a\\.b", "=", True, "a.b"), ("^a\\]", "^", False, "a]"), ("$\\ a", "$", False, " a"),
+                 ("%x\\'y", "%", False, "x'y")]
 
 
 def parse_expr(expr):
@@ -608,7 +612,7 @@ def check_get_search_term(coll):
     sym = {str(m): m for m in PathSearchMethods}
     if set(sym) != set(OPS):
         raise RuntimeError("operator table differs from the documented nine: %r" % sorted(sym))
-    for expr, op, inv, term in EXPRS:
+    for expr, op, inv, term in EXPRS + ESCAPED_EXPRS:
         inp = {"expr": expr, "get_search_term": True}
         try:
             t = yp.get_search_term(gen.QuietLog(), expr)
@@ -639,6 +643,56 @@ def check_get_search_term(coll):
             coll.witness("C07/get-search-term/malformed-accepted", "a malformed expression was not refused with an error",
                          inp, repr(t), "None and a logged error")
         coll.case(("gst-bad", expr, t is None))
+
+
+def _run_main(argv):
+    """yaml_paths.main() in-process (STDIN is a TTY: nothing is read from it) -> (exit code, stdout text)."""
+    from rtc import c16
+    r = c16.run_cli("paths", argv)
+    return r["code"], r["out"]
+
+
+STREAM_DOCS = ["a: a\nb: {c: a, d: 1}\n", "a: a\nx: [a, b]\nb: {c: a}\n", "k: 1\n", "b: {c: a}\n"]
+
+
+def check_main_streams(coll):
+    """A multi-document file is searched document by document: what `yaml-paths` prints for document i of a stream is
+    what it prints for that document alone (same paths, same order) -- results of one document never depend on another."""
+    import os
+    import tempfile
+    d = tempfile.mkdtemp(prefix="c07-main-")
+    try:
+        for exprs in (["=a"], ["=a", "=1"], ["%a"]):
+            for sep in (".", "/"):
+                base = ["-t", sep] + [x for e in exprs for x in ("-s", e)]
+                alone = []
+                for i, text in enumerate(STREAM_DOCS):
+                    fn = os.path.join(d, "one%d.yaml" % i)
+                    with open(fn, "w") as fh:
+                        fh.write(text)
+                    code, out = _run_main(base + [fn])
+                    alone.append([ln.split(": ", 1)[-1] for ln in out.splitlines()])
+                fn = os.path.join(d, "stream.yaml")
+                with open(fn, "w") as fh:
+                    fh.write("".join("---\n" + t for t in STREAM_DOCS))
+                code, out = _run_main(base + [fn])
+                got = [[] for _ in STREAM_DOCS]
+                for ln in out.splitlines():
+                    head, _, rest = ln.partition(": ")
+                    idx = head.rsplit("/", 1)[-1].split("[")[0]
+                    if idx.isdigit() and int(idx) < len(got):
+                        got[int(idx)].append(rest)
+                inp = {"main": True, "expressions": exprs, "sep": sep, "stream": STREAM_DOCS}
+                coll.case(("main-stream", tuple(exprs), sep, code))
+                for i in range(len(STREAM_DOCS)):
+                    if got[i] != alone[i]:
+                        coll.witness("C07/main/stream-document-differs-from-the-document-alone",
+                                     "document %d of a multi-document file is reported differently than on its own" % i, inp,
+                                     observed={"document": i, "in_stream": got[i]}, expected={"alone": alone[i]})
+                        break
+    finally:
+        import shutil
+        shutil.rmtree(d, ignore_errors=True)
 
 
 BOUNDS = {
@@ -673,6 +727,7 @@ def run(tier="quick", seed=0, jobs=None):
     b = BOUNDS[tier]
     coll = harness.Collector()
     check_get_search_term(coll)
+    check_main_streams(coll)
     items = []
     for text in HAND_DOCS:
         items.append((text, 0, ALIAS, "hand"))
